@@ -1111,6 +1111,33 @@ def run(ctx: Ctx) -> None:
                 if k not in seen_t:
                     seen_t.add(k)
                     ALL.append(Rule(r.code, r.lhs, ps, mode=r.mode, setup=r.setup, cls=r.cls, note=f"`{r.lhs}` with {pname}: {alt}"))
+    # the bytes twin of a str idiom: the operand typed bytes and every str literal of the instance written as a bytes literal
+    # (a check that accepts both types must also write the replacement for both)
+    class _Bytes(ast.NodeTransformer):
+        def visit_Constant(self, n):
+            return ast.copy_location(ast.Constant(value=n.value.encode("utf8")), n) if isinstance(n.value, str) else n
+    n_twins = 0
+    for r in list(RULES) + list(OPTIONAL_RULES):
+        if r.rhs is not None or r.annot or r.fs or "str" not in r.params.values():
+            continue
+        try:
+            t0 = ast.parse(textwrap.dedent(r.lhs))
+        except SyntaxError:
+            continue
+        if not any(isinstance(x, ast.Constant) and isinstance(x.value, str) for x in ast.walk(t0)):
+            continue
+        try:
+            txt = ast.unparse(ast.fix_missing_locations(_Bytes().visit(t0)))
+            compile(txt, "twin", "exec")
+        except Exception:  # noqa: BLE001
+            continue
+        ps = {k: ("bytes" if v == "str" else v) for k, v in r.params.items()}
+        k = (r.code, norm(txt), tuple(ps.values()))
+        if k not in seen_t:
+            seen_t.add(k)
+            ALL.append(Rule(r.code, txt, ps, mode=r.mode, setup=r.setup, cls=r.cls, note=f"`{r.lhs}` with bytes operands and bytes literals"))
+            n_twins += 1
+    ctx.count("bytes-twins-of-str-idioms", n_twins)
     seen_c = {(r.code, norm(r.lhs)) for r in ALL}
     n_compound = 0
     for r in RULES:
